@@ -100,6 +100,16 @@ def generate(rng, tier):
         if rng.random() < 0.3: piece = [(y, x) for x, y in piece]
         nodes = [[piece[0], piece[0], piece[1]], [piece[2], piece[3], piece[3]]]
         cases.append({"nodes": nodes, "flat": flat, "exact": True, "family": "tiny-piece-in-a-flatness-sized-box"})
+    # collinear, axis-parallel pieces whose handles overshoot an end node (an out-and-back stroke, handles reaching past both ends):
+    # straight is not the same as within the chord
+    for _ in range(max(10, n // 12)):
+        flat = F(rng.choice([1, 1, 2]), rng.choice([1, 4, 10])); y = F(rng.randint(-20, 20)); x0 = F(rng.randint(-20, 20)); L = F(rng.choice([0, 12, 5, 30]))
+        o1 = F(rng.choice([-6, -1, 30, 3])); o2 = F(rng.choice([6, 18, -30, 1]))
+        piece = [(x0, y), (x0 + o1, y), (x0 + L + o2, y), (x0 + L, y)]
+        if rng.random() < 0.5: piece = [(b, a) for a, b in piece]
+        nodes = [[piece[0], piece[0], piece[1]], [piece[2], piece[3], piece[3]]]
+        if rng.random() < 0.3: nodes = nodes + _nodes(rng, "grid")[:1]
+        cases.append({"nodes": nodes, "flat": flat, "exact": True, "family": "collinear-axis-parallel-overshoot"})
     for _ in range(n // 6):
         nodes = _far_nodes(rng)
         cases.append({"nodes": nodes, "flat": F(1, 2 ** rng.choice([13, 12, 11, 10])), "exact": True, "family": "far-from-origin/n=%d" % len(nodes)})
